@@ -371,7 +371,12 @@ func Random(id int, rng *rand.Rand, o Opts) *Prog {
 		pos := rng.Intn(4)
 		cs = append(cs[:pos], append([]Const{{Name: "kHidden"}}, cs[pos:]...)...)
 	}
-	add(Decl{K: "named", Name: "Kind", Under: &it, Iota: true, Consts: cs})
+	kindExtra := ""
+	if o.EnumUnexported && rng.Intn(2) == 0 {
+		// an unexported sentinel far from the iota range: still a member, still a value Go may emit
+		kindExtra = "const kindUnset Kind = 100"
+	}
+	add(Decl{K: "named", Name: "Kind", Under: &it, Iota: true, Consts: cs, Extra: kindExtra})
 	sv := Basic("string")
 	add(Decl{K: "named", Name: "Color", Under: &sv, Consts: []Const{{Name: "Red", Val: `"red"`}, {Name: "Blue", Val: `"blue"`, Comment: "the blue"}, {Name: "green", Val: `"green"`}}})
 	iv := Basic("int")
@@ -382,6 +387,13 @@ func Random(id int, rng *rand.Rand, o Opts) *Prog {
 	}
 	add(Decl{K: "named", Name: "Score", Under: &iv, Consts: scs})
 	g.leafs = append(g.leafs, Ref("", "Kind"), Ref("", "Color"), Ref("", "Score"))
+	if o.EnumUnexported {
+		// exported constants 0..2 (iota-like) plus an unexported sentinel far away: still a member
+		ph := Basic("int")
+		add(Decl{K: "named", Name: "Phase", Under: &ph, Iota: true, Consts: []Const{{Name: "P0"}, {Name: "P1"}, {Name: "P2"}}, Extra: "const phaseUnset Phase = 100"})
+		add(Decl{K: "struct", Name: "EnumsHolder", Fields: []Field{{Name: "P", Type: Ref("", "Phase")}, {Name: "Ps", Type: Slice(Ref("", "Phase"))}, {Name: "ByName", Type: Map(Basic("string"), Ref("", "Phase"))}}})
+		g.leafs = append(g.leafs, Ref("", "Phase"))
+	}
 	// dates
 	tt := Time()
 	add(Decl{K: "named", Name: "MyDate", Under: &tt, Extra: "func NewDateFrom(t time.Time) MyDate { return MyDate(t) }\nfunc (d MyDate) Time() time.Time { return time.Time(d) }\nfunc (d MyDate) MarshalJSON() ([]byte, error) { return time.Time(d).MarshalJSON() }\nfunc (d *MyDate) UnmarshalJSON(b []byte) error { return (*time.Time)(d).UnmarshalJSON(b) }"})
@@ -430,6 +442,11 @@ func Random(id int, rng *rand.Rand, o Opts) *Prog {
 		add(Decl{K: "named", Name: "Things", Under: &mt})
 		unionLeafs = []TE{Ref("", "Shape"), Ref("", "Thing"), Ref("", "Shapes"), Ref("", "Things")}
 		g.leafs = append(g.leafs, Ref("", "Circle"), Ref("", "Rect"))
+		// a named slice of unions declared in the OTHER file of the package, only reachable through a field that
+		// comes after a union field
+		ly := Slice(Ref("", "Shape"))
+		add(Decl{K: "named", Name: "Layers", File: "other", Under: &ly})
+		add(Decl{K: "struct", Name: "AfterUnion", Fields: []Field{{Name: "First", Type: Ref("", "Shape")}, {Name: "Then", Type: Ref("", "Layers")}}})
 		if o.TagOptions {
 			// a struct with a union field (so that gounions wraps it) whose siblings carry json tag options
 			add(Decl{K: "struct", Name: "WithOpts", Fields: []Field{{Name: "Sh", Type: Ref("", "Shape")},
@@ -440,6 +457,14 @@ func Random(id int, rng *rand.Rand, o Opts) *Prog {
 			// members used directly BEFORE the unions they belong to, inside one value
 			add(Decl{K: "struct", Name: "MemberFirst", Fields: []Field{{Name: "First", Type: Ref("", "Circle")}, {Name: "Both", Type: Ref("", "Rect")}, {Name: "Then", Type: Ref("", "Shape")}, {Name: "Last", Type: Ref("", "Thing")}}})
 		}
+	}
+	// containers of anonymous containers
+	add(Decl{K: "struct", Name: "Nested", Fields: []Field{{Name: "Cells", Type: Slice(Map(Basic("string"), Basic("int")))}, {Name: "Grid", Type: Slice(Slice(Basic("int")))},
+		{Name: "ByKey", Type: Map(Basic("string"), Slice(Basic("string")))}, {Name: "Deep", Type: Map(Basic("string"), Map(Basic("string"), Basic("bool")))}}})
+	if o.Pointers {
+		// a pointer to a named type that is analysed / generated BEFORE the struct holding the pointer
+		add(Decl{K: "struct", Name: "Leafy", Fields: []Field{{Name: "V", Type: Basic("int")}, {Name: "S", Type: Basic("string")}}})
+		add(Decl{K: "struct", Name: "PtrHolder", Fields: []Field{{Name: "Name", Type: Basic("string")}, {Name: "L", Type: Ptr(Ref("", "Leafy"))}, {Name: "N", Type: Ptr(Basic("int"))}, {Name: "Again", Type: Ptr(Ref("", "Leafy"))}}})
 	}
 	if o.Embedded {
 		add(Decl{K: "struct", Name: "Base", Fields: []Field{{Name: "BaseID", Type: Ref("", "IdItem"), Tag: `json:"base_id"`}, {Name: "Note", Type: Basic("string")}, {Name: "secret", Type: Basic("bool")}}})
